@@ -10,7 +10,7 @@ for name in sorted(os.listdir(os.path.join(VERIF, "seeded"))):
     d = os.path.join(VERIF, "seeded", name)
     if not os.path.isdir(d):
         continue
-    prop = name.split("_")[0]
+    prop = next(t for t in name.split("_") if t.startswith("C") and t[1:].isdigit())
     checks = [prop] + EXTRA.get(prop, [])
     r = subprocess.run([sys.executable, os.path.join(VERIF, "tools", "seed_eval.py"), d, "--checks", ",".join(checks), "--keep-as", name],
                        capture_output=True, text=True)
